@@ -39,6 +39,13 @@ pub struct TaskCtl {
     /// clears its token, so an observer that reads the token first and the epoch / state afterwards never
     /// mistakes a task that is in the middle of waking up for one that is parked without a wake-up.
     pub epoch: AtomicU64,
+    /// stamps of the future driven last (owner thread writes, the workload reads after `drive` returned):
+    /// call of the first poll, return of the first poll that was Pending (0 = never pending), call of the
+    /// completing poll or of the drop, return of the completing poll or of the drop
+    pub t_first_call: AtomicU64,
+    pub t_reg_ret: AtomicU64,
+    pub t_end_call: AtomicU64,
+    pub t_end_ret: AtomicU64,
     pub token: AtomicBool,
     pub state: AtomicU8,
     pub thread: Mutex<Option<Thread>>,
@@ -65,6 +72,10 @@ impl Run {
                 cur: AtomicU32::new(0),
                 stale_wakes: AtomicU64::new(0),
                 epoch: AtomicU64::new(0),
+                t_first_call: AtomicU64::new(0),
+                t_reg_ret: AtomicU64::new(0),
+                t_end_call: AtomicU64::new(0),
+                t_end_ret: AtomicU64::new(0),
                 token: AtomicBool::new(false),
                 state: AtomicU8::new(RUNNING),
                 thread: Mutex::new(None),
@@ -254,6 +265,17 @@ pub fn drive<F: Future>(run: &Arc<Run>, i: usize, fut: F, how: Drive, waiting_fo
         _ => 0,
     };
     let mut force_swap = false;
+    ctl.t_first_call.store(run.now(), Ordering::Relaxed);
+    ctl.t_reg_ret.store(0, Ordering::Relaxed);
+    // the future is dropped here, between two stamps, when it is given up
+    macro_rules! give_up {
+        ($o:expr) => {{
+            ctl.t_end_call.store(run.now(), Ordering::Relaxed);
+            drop(fut);
+            ctl.t_end_ret.store(run.now(), Ordering::Relaxed);
+            return $o;
+        }};
+    }
     let mut wakes_left = match how {
         Drive::Wakes(n) => n,
         _ => u32::MAX,
@@ -271,17 +293,23 @@ pub fn drive<F: Future>(run: &Arc<Run>, i: usize, fut: F, how: Drive, waiting_fo
         let w = task_waker(run, i, gen);
         let mut cx = Context::from_waker(&w);
         ctl.token.store(false, Ordering::Relaxed);
+        let pc = run.now();
         if let Poll::Ready(v) = fut.as_mut().poll(&mut cx) {
+            ctl.t_end_call.store(pc, Ordering::Relaxed);
+            ctl.t_end_ret.store(run.now(), Ordering::Relaxed);
             run.ops.fetch_add(1, Ordering::Relaxed);
             return Outcome::Ready(v);
         }
+        if ctl.t_reg_ret.load(Ordering::Relaxed) == 0 {
+            ctl.t_reg_ret.store(run.now(), Ordering::Relaxed);
+        }
         match how {
-            Drive::Once => return Outcome::Cancelled,
+            Drive::Once => give_up!(Outcome::Cancelled),
             Drive::Abandon(n) => {
                 for _ in 0..n {
                     std::thread::yield_now();
                 }
-                return Outcome::Cancelled;
+                give_up!(Outcome::Cancelled);
             }
             Drive::Repoll(_) if spurious_left > 0 => {
                 for _ in 0..spurious_left {
@@ -293,7 +321,7 @@ pub fn drive<F: Future>(run: &Arc<Run>, i: usize, fut: F, how: Drive, waiting_fo
             }
             Drive::Yields(_) => {
                 if yields_left == 0 {
-                    return Outcome::Cancelled;
+                    give_up!(Outcome::Cancelled);
                 }
                 for _ in 0..yields_left {
                     std::thread::yield_now();
@@ -304,7 +332,7 @@ pub fn drive<F: Future>(run: &Arc<Run>, i: usize, fut: F, how: Drive, waiting_fo
             _ => {}
         }
         if wakes_left == 0 {
-            return Outcome::Cancelled;
+            give_up!(Outcome::Cancelled);
         }
         // park until woken
         ctl.waiting_for.store(waiting_for, Ordering::Relaxed);
@@ -321,7 +349,7 @@ pub fn drive<F: Future>(run: &Arc<Run>, i: usize, fut: F, how: Drive, waiting_fo
             if run.abort.load(Ordering::Relaxed) {
                 ctl.epoch.fetch_add(1, Ordering::AcqRel);
                 ctl.state.store(RUNNING, Ordering::Release);
-                return Outcome::Aborted;
+                give_up!(Outcome::Aborted);
             }
             if cfg!(miri) {
                 std::thread::park();
